@@ -1,0 +1,13 @@
+//go:build verif
+
+package channelsubscriptions
+
+import datatransfer "github.com/filecoin-project/go-data-transfer/v2"
+
+// VerifSubscribers returns the number of per-transfer subscribers registered for a channel
+// (verification hook, only built with -tags verif).
+func (cs *ChannelSubscriptions) VerifSubscribers(chid datatransfer.ChannelID) int {
+	cs.subscriptionsLk.RLock()
+	defer cs.subscriptionsLk.RUnlock()
+	return len(cs.subscriptions[chid])
+}
